@@ -1,6 +1,6 @@
 (* Property C11: frame-dropping rules remove only the frames they name.
    Statements only; proofs are in L_Prune.v.  M is ANY match predicate (regexp engine abstract). *)
-From PV Require Import M_Filter M_Prune S_Filter S_Prune S_PruneFull L_FilterBase L_Prune L_PruneFull.
+From PV Require Import M_Filter M_Prune M_TagFilter M_Driver S_Filter S_Prune S_PruneFull L_FilterBase L_Prune L_PruneFull L_Driver.
 Open Scope Z_scope.
 Open Scope string_scope.
 
@@ -119,6 +119,42 @@ Theorem history_preserves_validity : forall M V p st,
   wf_profile p = true -> wf_profile (run_step M V p st) = true.
 Proof. exact run_step_wf. Qed.
 Print Assumptions history_preserves_validity.
+
+(* ---- the glue of the driver (model M_Driver, tied to driver.PProf / sessions / web by the e2e cases) *)
+
+(* several sources: the merged profile carries ONE pair of expressions, the first source's *)
+Theorem fetch_uses_first_source_expressions : forall p0 r,
+  p_dropframes (merge_sources (p0 :: r)) = p_dropframes p0
+  /\ p_keepframes (merge_sources (p0 :: r)) = p_keepframes p0.
+Proof. exact merge_sources_expressions. Qed.
+Print Assumptions fetch_uses_first_source_expressions.
+
+(* "applied once after fetching": the fetched profile is what the drop/keep rule leaves of the merged
+   sources (outside F14) *)
+Theorem fetch_meets_spec : forall M V srcs,
+  wf_profile (merge_sources srcs) = true ->
+  steps_classes M V (merge_sources srcs) [SRemoveUn] = [] ->
+  fsamples (fetch_model M V srcs)
+  = spec_steps M V (merge_sources srcs) [SRemoveUn] (fsamples (merge_sources srcs)).
+Proof. exact fetch_model_meets_spec_l. Qed.
+Print Assumptions fetch_meets_spec.
+
+(* prune_from is the LAST stage of applyFocus: with it the result is exactly PruneFrom of the result
+   without it, so it never changes which samples the other filters select ... *)
+Theorem prune_from_is_applied_last : forall M V uts p units c re,
+  c_prunefrom c = "" -> re <> "" -> V re = true ->
+  fst (fst (apply_focus M V uts p units c)) = "" ->
+  fst (fst (apply_focus M V uts p units (with_prunefrom c re))) = ""
+  /\ snd (fst (apply_focus M V uts p units (with_prunefrom c re)))
+     = prune_from M (snd (fst (apply_focus M V uts p units c))) re.
+Proof. exact prune_from_is_last_l. Qed.
+Print Assumptions prune_from_is_applied_last.
+
+(* ... and the number of samples, their values and labels are unchanged by it *)
+Theorem prune_from_keeps_every_sample_thm : forall M p re,
+  map payload (p_sample (prune_from M p re)) = map payload (p_sample p).
+Proof. exact prune_from_keeps_every_sample. Qed.
+Print Assumptions prune_from_keeps_every_sample_thm.
 
 (* ---------------------------------------------------------------- witnesses *)
 Definition Meq (rx s : string) : bool := String.eqb rx s.
